@@ -20,7 +20,7 @@ LoadConfig(e) ==
     /\ pages = e.pages /\ links = e.links /\ open = e.open /\ failAt = e.failAt
     /\ built = "no" /\ cur = 1 /\ idx = 0
     /\ stopped = FALSE /\ dry = FALSE /\ late = FALSE /\ graceOver = FALSE /\ yielded = 0
-    /\ last = NoRes /\ agree = TRUE /\ hist = <<>> /\ stopAfter = 0
+    /\ last = NoRes /\ agree = TRUE /\ hist = <<>> /\ stopAfter = 0 /\ haltFetch = 0
 
 TraceInit == /\ l = 2 /\ unchecked = FALSE
              /\ Trace[1].op = "Config"
@@ -36,7 +36,7 @@ TraceReset ==
     /\ built' = "no" /\ cur' = 1 /\ idx' = 0
     /\ stopped' = FALSE /\ dry' = FALSE /\ late' = FALSE /\ graceOver' = FALSE /\ yielded' = 0
     /\ last' = NoRes /\ agree' = TRUE
-    /\ UNCHANGED <<hist, stopAfter>>
+    /\ UNCHANGED <<hist, stopAfter, haltFetch>>
 
 Matches(e, r) == /\ r.op = e.op /\ r.b = e.b
                  /\ (e.op = "GetNext" /\ e.b) => r.item = e.item
@@ -48,7 +48,7 @@ TraceCall ==
     /\ (last'.op \in {"Stop", "Close", "Cancel"}) = (Ev.op \in {"Stop", "Close", "Cancel"})
     /\ \/ /\ Matches(Ev, last') /\ unchecked' = FALSE
        \/ /\ last'.free /\ last'.op = Ev.op /\ ~Matches(Ev, last') /\ unchecked' = TRUE
-    /\ UNCHANGED <<hist, stopAfter>>
+    /\ UNCHANGED <<hist, stopAfter, haltFetch>>
 
 \* outside the statement: only the ordering part of the property is still checked
 TraceUnchecked ==
@@ -57,7 +57,7 @@ TraceUnchecked ==
     /\ (Ev.op = "GetNext" /\ Ev.b) => (Ev.item = yielded + 1 /\ ~stopped)
     /\ yielded' = IF Ev.op = "GetNext" /\ Ev.b THEN yielded + 1 ELSE yielded
     /\ stopped' = (stopped \/ Ev.op \in {"Stop", "Close", "Cancel"})
-    /\ UNCHANGED <<pages, links, open, failAt, built, cur, idx, dry, late, graceOver, last, agree, hist, stopAfter>>
+    /\ UNCHANGED <<pages, links, open, failAt, built, cur, idx, dry, late, graceOver, last, agree, hist, stopAfter, haltFetch>>
 
 TraceNext == TraceReset \/ TraceCall \/ TraceUnchecked
 
